@@ -130,7 +130,7 @@ def c04_r1(ctx):
     rets = [norm.canon(r.value) for r in returns_of(tf) if r.value is not None]
     calls_fn = [c for c in norm.calls_in(tf.node) if isinstance(c.func, ast.Name) and c.func.id == "fn"]
     # the returned local is only ever bound to the result of fn()
-    vals = norm.assigned_names(tf.node).get(rets[0], []) if len(rets) == 1 else []
+    vals = norm.assigned_names(tf.node).get(rets[0], []) if rets and len(set(rets)) == 1 else []
     from_fn = bool(vals) and all(v is not None and isinstance(v, ast.Call) and v in calls_fn for v in vals)
     ctx.ob(tf, from_fn and len(calls_fn) >= 1 and all(not c.args and not c.keywords for c in calls_fn),
            "try_for returns the result of calling fn() with no arguments", detail=str(rets))
